@@ -298,5 +298,7 @@ impl ChannelStub {
 //@end
 }
 
+//@include lemmas/holder_history.rs
+
 } // verus!
 fn main() {}
